@@ -330,7 +330,7 @@ class HistoryRunner:
                 self.oracle.append(("locked_frozen:structure",
                                     {"node": mid, "before": [k for k, _ in b["ents"]], "after": [k for k, _ in a["ents"]], "outcome": outcome},
                                     {"call": kind, "effect": "keys" if [k for k, _ in b["ents"]] != [k for k, _ in a["ents"]] else "rebound",
-                                     "stream": "history"}))
+                                     "stream": "history", "pattern": "exclude-inplace-on-locked" if kind == "exclude" and outcome == "ok" else None}))
                 self.flags["locked_mutation"] += 1
         # a call that raises leaves the lock state of every locked node as it was; no call other than unlock_ unlocks a node
         for mid, b in before.items():
@@ -359,7 +359,9 @@ class HistoryRunner:
                                         {"node": desc.get("n"), "locked_parents": locked_parents, "flags_changed": changed, "outcome": outcome},
                                         {"call": "unlock_", "effect": "unlocked", "stream": "history",
                                          "parent_locked_by": "memmap_" if via_mm else "lock_",
-                                         "hollow_lazy": bool(hollow(W, target_obj))}))
+                                         "hollow_lazy": bool(hollow(W, target_obj)),
+                                         "pattern": ("member-unlock:parent-locked-by-memmap_" if via_mm and outcome == "ok" else
+                                                     "member-unlock:hollow-lazy-stack" if hollow(W, target_obj) and outcome == "ok" else None)}))
             if outcome == "ok":
                 # O3 unlock_root_frees
                 for x in W.reachable(target_obj).values():
@@ -875,7 +877,8 @@ def stream_writes(R, RF, t):
                     k = ks[0]
                     shp = tuple(h.get(k).shape)
                     val = to.full(shp, 9.0)
-                    try:
+                    def do_write(h, wname=wname, k=k, val=val, shp=shp):
+                        v = val
                         if wname == "set_":
                             h.set_(k, val)
                         elif wname == "set-inplace":
@@ -885,26 +888,39 @@ def stream_writes(R, RF, t):
                         elif wname == "update-inplace":
                             h.update({k: val}, inplace=True)
                         elif wname == "setitem-index":
-                            h[0] = h[0].clone().apply(lambda x: x * 0 + 9.0) if not RF.T()["is_tc"](h) else h[0]
-                            val = None
+                            h[0] = h[0].clone()
+                            v = None
                         elif wname == "fill_":
                             h.fill_(k, 9.0)
                         elif wname == "zero_":
                             h.zero_()
-                            val = to.zeros(shp)
+                            v = to.zeros(shp)
                         elif wname == "apply_":
-                            h.apply_(lambda x: x.mul_(0).add_(9.0))
+                            h.apply_(lambda x: x.mul_(0).add_(9.0) if isinstance(x, to.Tensor) else x)
                         elif wname == "set_at_":
                             h.set_at_(k, val[0], 0)
-                            val = None
+                            v = None
                         elif wname == "iadd":
                             h += 1.0
-                            val = None
+                            v = None
                         elif wname == "copy_":
-                            h.copy_(h.clone().apply(lambda x: x * 0 + 9.0))
+                            h.copy_(h.clone())
+                            v = None
+                        return v
+                    try:
+                        val = do_write(h)
                         outcome = "ok"
                     except Exception as e:  # noqa: BLE001
                         outcome = type(e).__name__ + ": " + str(e)[:120]
+                        # control: the same write on an unlocked copy -- a write that is not possible there either is not a matter of locking
+                        try:
+                            ctl = h.clone()
+                            if ctl.is_locked:
+                                ctl.unlock_()
+                            do_write(ctl)
+                        except Exception:  # noqa: BLE001
+                            R.count("write:not-applicable-even-unlocked")
+                            continue
                     after = RF.Snap(roots)
                     R.case(("write", fx, hn, wname), nontrivial=True)
                     R.count("write:" + ("ok" if outcome == "ok" else "raised"))
@@ -912,7 +928,9 @@ def stream_writes(R, RF, t):
                     sd = RF.diff_struct(before.structure(), after.structure())
                     case = {"stream": "writes", "fixture": fx, "handle": hn, "write": wname}
                     if outcome != "ok":
-                        R.oracle_fail("inplace_write:rejected", case, {"outcome": outcome}, {"call": wname, "effect": "write-rejected", "fixture": fx, "stream": "writes"})
+                        pat = "tensorclass-set-inplace-rejected-under-lock" if (wname == "set-inplace" and RF.kind_of(h) == "tc" and outcome.startswith("RuntimeError")) else None
+                        R.oracle_fail("inplace_write:rejected", case, {"outcome": outcome},
+                                      {"call": wname, "effect": "write-rejected", "fixture": fx, "stream": "writes", "pattern": pat})
                     elif sd:
                         R.oracle_fail("locked_frozen:structure", case, {"diff": sd[:6]}, {"call": wname, "effect": "keys", "stream": "writes"})
                     elif val is not None and not bool((h.get(k) == val).all()):
